@@ -379,6 +379,9 @@ func (e *c04Exec) subRun(z zoneCfg) (out []string, sdig string, infra string) {
 					infra = got.Outcome
 					return
 				}
+				if strings.Contains(got.Probes, "reenter(") {
+					v.Stats.probe("nested-evaluation-from-callback")
+				}
 				if got.Repeat != "" {
 					e.violate("result-stability", "repeat-after-caller-edit", fmt.Sprintf("client %d op %d (%s %q): %s", ci, oi, op.Kind, c.Programs[op.Prog].Src, got.Repeat))
 				}
